@@ -1351,6 +1351,8 @@ def judge_c14(ops, impl):
             # frame of Delete: a host accepted before and rejected right after must have been served by the deleted domain
             # (answers = what was observed since the previous mutation of this instance)
             hh['deleted'] = (d, dict(hh.get('answers', {}))); hh['answers'] = {}
+            if b'{' in d:
+                hh['param_deleted'] = True   # the tree keeps a split parameter node: "resolves" is the reference for add-only tables (DESIGN §0.4b)
         elif toks[0] == 'hosts-icpt' and obs == 'ok' and int(toks[1]) in hosts:
             hosts[int(toks[1])].pop('deleted', None); hosts[int(toks[1])]['answers'] = {}
             hosts[int(toks[1])]['tainted'] = True   # kinds now depend on registration time: judge only literals
@@ -1361,6 +1363,12 @@ def judge_c14(ops, impl):
                 # outside the modelled domain (ASCII); one clause is still judged for well-formed UTF-8 whose letters have a
                 # one-to-one lower case (Go's strings.ToLower and Python's str.lower agree there): Add and Match lower-case
                 # alike, so a registered literal domain accepts every case spelling of itself
+                ci = host.rfind(b':')
+                if ci >= 0 and all(c < 0x80 for c in host[:ci]) and any(c >= 0x80 for c in host[ci:]) and obs.split(' ')[1] == '1':
+                    base = host[:ci]
+                    base = base[1:-1] if base.startswith(b'[') and base.endswith(b']') else base
+                    if base.lower() in [d for d in h['doms'] if b'{' not in d] or not any(b':' in d or b'{' in d and d.endswith(b'}') for d in h['doms']):
+                        bad.append((i, 'host %r accepted: a port made of non-ASCII digits was stripped (a port is ASCII digits only)' % host))
                 lh = go_lower_simple(norm_host(host))
                 if lh is not None and obs.split(' ')[1] != '1' and any(go_lower_simple(d) == lh for d in h['doms'] if b'{' not in d):
                     bad.append((i, 'registered domain %r (host %r) is rejected: Add and Match do not lower-case alike' % (lh, host)))
@@ -1387,7 +1395,7 @@ def judge_c14(ops, impl):
             a = {(rt, tuple(sorted(p))) for (rt, p) in a}
             if ok and not any(p == ps for (_, p) in a):
                 bad.append((i, 'host %r accepted with parameters %r; the registered domains admit %r' % (host, ps, sorted(a)[:3])))
-            if not ok and a:
+            if not ok and a and not h.get('param_deleted'):
                 bad.append((i, 'host %r rejected although it resolves to %r' % (host, sorted(a)[:3])))
     return bad
 
